@@ -87,6 +87,10 @@ CLAIMED.update({
             'and relocation copies when the move may throw; leak-freedom on unwind exits.',
             'Trusts may-throw/may-effect summaries of opaque callees, path slicing by seeding pos == end().',
             'DESIGN.md section 6 C05'),
+    'C09': ('other', 'steal-path effect freedom, steal-whenever-permitted evidence and source reset over LLVM IR paths',
+            'Structural content of the statement on every path of the move/swap mechanisms; value preservation follows from "pointer copied, nothing touched".',
+            'Trusts may-effect summaries of opaque callees; steal classification shared with C02 (R02.1).',
+            'DESIGN.md section 6 C09'),
 })
 
 NOT_APPLICABLE = {
